@@ -138,6 +138,11 @@ EndViol(o, en) ==
       x \in { y \in AllActors(o) : /\ NC = 1 /\ Last(y.cancl) = "called" /\ o.parked = << >>
                                    /\ IsLeader(y.c, y.p) /\ o.sem[y.p + 1] # cur.scen.conc[y.p + 1] } }
   \cup
+  \* cancel() always returns (C15Liveness on the model): a call still pending when nothing can move never will
+  { V("C15", "cancel() was invoked and nothing can move any more, but the call has not returned (handled in state "
+             \o ck[<< x.c, x.p >>] \o ")", x.c, x.p) :
+      x \in { y \in AllActors(o) : Last(y.cancl) = "called" /\ o.parked = << >> } }
+  \cup
   { V("C17", "a " \o f[3] \o " call to a peer failed but the policy did not end at the caller", f[1], f[2]) :
       f \in { g \in failed : Actor(o, g[1], g[2]).kind # "Stopped" } }
   \cup
